@@ -127,6 +127,127 @@ def _rmi(init="        index = 0\n", test="index < len(obj_flags)", fetch="obj_f
     return init + "        while " + test + ":\n            (name, symbol, order), symbols = " + fetch + "\n" + _RMI_BODY + step
 
 
+_REO, _REP = ['definitions.remove_empty_objects'], ['definitions.remove_empty_properties']
+_REO_OLD = "        for o in empty_objects:\n            self._objects.remove(o)\n"
+_REP_OLD = "        for p in empty_properties:\n            self._properties.remove(p)\n"
+_CABC = 'ABS:/root/.pyenv/versions/3.12.1/lib/python3.12/_collections_abc.py'
+_ISUB = ['stdlib.MutableSet.__isub__']
+_ISUB_OLD = ("    def __isub__(self, it):\n        if it is self:\n            self.clear()\n        else:\n            for value in it:\n"
+             "                self.discard(value)\n        return self\n")
+
+_CSVL = ['formats.csv.loadf', 'formats.csv.Csv.loadf.written']
+_CSVP_OLD = ("                try:\n                    list(map(values.__getitem__, first_symbols))\n                except KeyError:\n"
+             "                    pass\n                else:\n                    break\n")
+
+
+def _csvp(test):
+    return "                %s\n                    break\n" % test
+
+# ---- round 6: loops moved into helpers (engine.Expansion)
+_LNK = ['lattices.__init__', 'lattices._fromlist.raw', 'lattices._fromlist.ordered']
+_LNK_A = ("            shortlex = inst._shortlex\n            longlex = inst._longlex\n            concepts.sort(key=shortlex)\n"
+          "            for index, c in enumerate(concepts):\n                c.index = index\n"
+          "                upper = (index_map[i] for i in c.upper_neighbors)\n                lower = (index_map[i] for i in c.lower_neighbors)\n"
+          "                c.upper_neighbors = tuple(sorted(upper, key=shortlex))\n                c.lower_neighbors = tuple(sorted(lower, key=longlex))\n")
+_LNK_MID = ("        else:\n            # assume sorted(concepts, key=shortlex)\n            # assume sorted(upper_neighbors, key=shortlex)\n"
+            "            # assume sorted(lower_neighbors, key=longlex)\n            for index, c in enumerate(concepts):\n                c.index = index\n"
+            "                c.upper_neighbors = tuple(concepts[i] for i in c.upper_neighbors)\n"
+            "                c.lower_neighbors = tuple(concepts[i] for i in c.lower_neighbors)\n\n        cls._init(inst, context, concepts)\n        return inst\n\n"
+            "    def __init__(self, context: 'contexts.Context', infimum=()) -> None:\n        \"\"\"Create lattice from context.\"\"\"\n"
+            "        concepts = [Concept(self, *args)\n                    for args in context._lattice(infimum)]\n        mapping = self._make_mapping(concepts)\n\n")
+_LNK_OLD = _LNK_A + _LNK_MID + "        shortlex = self._shortlex\n        longlex = self._longlex\n" + _LIW_OLD
+_LNK_HELPER = ("    def _link_neighbors(self, concepts, mapping) -> None:\n        shortlex = self._shortlex\n        longlex = self._longlex\n"
+               "        for index, c in enumerate(concepts):\n" + _LIW_BODY.replace("\n            ", "\n            ").rstrip("\n"))
+
+
+def _lnk(call_a="            concepts.sort(key=inst._shortlex)\n            inst._link_neighbors(concepts, index_map)\n",
+         call_b="        self._link_neighbors(concepts, mapping)\n", helper=_LNK_HELPER, where='method'):
+    """lattices.py with the numbering / neighbour-sorting loop of Data._fromlist (unordered) and Data.__init__ in ONE helper
+    (seeded/refactorings/R20-R1.diff): a method of Data, or a module-level function (where='module')"""
+    tail = call_b + "        self._init(self, context, concepts, mapping=mapping)"
+    if where == 'module':
+        return call_a + _LNK_MID + tail + "\n\n    _link_marker = None\n\n\n" + helper.replace("\n    ", "\n").lstrip(" ") + "\n\n\nclass _Rest(Data):"
+    return call_a + _LNK_MID + tail + "\n\n" + helper
+
+
+_ANN = ['lattices._annotate']
+_ANN_OLD = ("        touched = set()\n        for o in context.objects:\n            extent = context.extension(context.intension([o]), raw=True)\n"
+            "            c = mapping[extent]\n            if c.objects:\n                c.objects.append(o)\n            else:\n"
+            "                c.objects = [o]\n                touched.add(c)\n\n        for c in touched:\n            c.objects = tuple(c.objects)\n\n"
+            "        touched = set()\n        for p in context.properties:\n            extent = context.extension([p], raw=True)\n"
+            "            c = mapping[extent]\n            if c.properties:\n                c.properties.append(p)\n            else:\n"
+            "                c.properties = [p]\n                touched.add(c)\n\n        for c in touched:\n            c.properties = tuple(c.properties)\n")
+_ANN_HELPER = ("        def annotate(attname, labels, get_extent):\n            touched = set()\n            for label in labels:\n"
+               "                c = mapping[get_extent(label)]\n                if getattr(c, attname):\n                    getattr(c, attname).append(label)\n"
+               "                else:\n                    setattr(c, attname, [label])\n                    touched.add(c)\n"
+               "            for c in touched:\n                setattr(c, attname, tuple(getattr(c, attname)))\n")
+_ANN_O = "        annotate('objects', context.objects,\n                 lambda o: context.extension(context.intension([o]), raw=True))\n"
+_ANN_P = "        annotate('properties', context.properties,\n                 lambda p: context.extension([p], raw=True))\n"
+
+
+def _ann(helper=_ANN_HELPER, first=_ANN_O, second=_ANN_P):
+    """Data._annotate with the two label passes as two calls of one nested function (seeded/refactorings/R17-R1.diff)"""
+    return helper + first + second
+
+
+_DBL = ['matrices.double', 'matrices.doubleprime']
+_DBL_LOOP = ("            i = 0\n            while %(v)s:\n                shift = (%(v)s & -%(v)s).bit_length() - 1\n                if not shift:\n"
+             "                    shift = 1\n                    %(acc)s &= %(seq)s[i]\n                i += shift\n                %(v)s >>= shift\n\n")
+_DBL_OLD = ("        def double(bitset):\n            \"\"\"FCA double derivation operator (extent->extent, intent->intent).\"\"\"\n            prime = Prime\n\n"
+            + _DBL_LOOP % dict(v='bitset', acc='prime', seq='other') + "            double = Double\n\n" + _DBL_LOOP % dict(v='prime', acc='double', seq='self')
+            + "            return make_double(double)\n\n        def doubleprime(bitset):\n"
+            "            \"\"\"FCA single and double derivation (extent->extent+intent, intent->intent+extent).\"\"\"\n            prime = Prime\n\n"
+            + _DBL_LOOP % dict(v='bitset', acc='prime', seq='other') + "            bitset = prime\n            double = Double\n\n"
+            + _DBL_LOOP % dict(v='bitset', acc='double', seq='self') + "            return make_double(double), make_prime(prime)\n")
+_DBL_HELPER = ("        def derive_twice(bitset):\n            prime = Prime\n\n" + _DBL_LOOP % dict(v='bitset', acc='prime', seq='other')
+               + "            bitset = prime\n            double = Double\n\n" + _DBL_LOOP % dict(v='bitset', acc='double', seq='self')
+               + "            return double, prime\n\n")
+
+
+def _dbl(helper=_DBL_HELPER, double="            return make_double(derive_twice(bitset)[0])\n",
+         doubleprime="            double, prime = derive_twice(bitset)\n            return make_double(double), make_prime(prime)\n"):
+    """matrices._pair_with with the two zero-skipping loops in a sibling closure called by double and doubleprime (seeded/refactorings/R18-R1.diff)"""
+    return helper + "        def double(bitset):\n" + double + "\n        def doubleprime(bitset):\n" + doubleprime
+
+_H20_OLD = ("            for index, c in enumerate(concepts):\n                c.index = index\n"
+            "                c.upper_neighbors = tuple(concepts[i] for i in c.upper_neighbors)\n")
+
+
+def _h20(rng="range(len(concepts))", fetch="concepts[index]"):
+    return ("            for index in %s:\n                c = %s\n                c.index = index\n"
+            "                c.upper_neighbors = tuple(concepts[i] for i in c.upper_neighbors)\n" % (rng, fetch))
+
+
+_H21_OLD = "        cls = frozenset if as_set else tuple\n        return cls(self.extent.iter_set())\n"
+_H22_OLD = "        for dindex, c in enumerate(sorted(inst._concepts, key=inst._longlex)):\n"
+
+
+def _h22(copy="        by_longlex = list(inst._concepts)\n", sort="        by_longlex.sort(key=inst._longlex)\n", over="by_longlex"):
+    return copy + sort + "        for dindex, c in enumerate(%s):\n" % over
+
+
+_H23A_OLD = "        self._pairs.update((obj, p) for p in properties)\n"
+_H23R_OLD = "        self._pairs.difference_update((obj, p) for p in self._properties)\n"
+_H24_OLD = "        concepts = [Concept(self, *args)\n                    for args in context._lattice(infimum)]\n"
+
+
+def _h24(args="self, extent, intent, upper, lower", target="extent, intent, upper, lower"):
+    return "        concepts = [Concept(%s)\n                    for %s in context._lattice(infimum)]\n" % (args, target)
+
+
+_H25_OLD = "        yield from lines\n"
+_H26_OLD = "    write = functools.partial(print, file=file)\n    write(tmpl"
+_H27_OLD = "            for as_int, values in cls.values.items():\n"
+_H29_OLD = ("        for attname in ('upper_neighbors', 'lower_neighbors'):\n            s_neighbors = getattr(self, attname)\n"
+            "            o_neighbors = getattr(other, attname)\n")
+
+
+def _h29(first="(self.upper_neighbors, other.upper_neighbors)", second="(self.lower_neighbors, other.lower_neighbors)", swap=False):
+    pairs = [x for x in (first, second) if x]
+    if swap:
+        pairs = ["(other.upper_neighbors, self.upper_neighbors)", pairs[-1]]
+    return "        for s_neighbors, o_neighbors in (%s,):\n" % ", ".join(pairs)
+
 MUTANTS = [
     # (file, old, new, units, 'breaks'|'equivalent')
     (M, 'i += shift', 'i += shift + 1', ['matrices.prime'], 'breaks'),
@@ -973,6 +1094,156 @@ MUTANTS = [
     (JU, _RMI_OLD, _rmi(test="index < len(obj_flags) - 1"), _META, 'breaks'),
     (JU, _RMI_OLD, _rmi(fetch="obj_flags[index - 1]"), _META, 'breaks'),
     (JU, _RMI_OLD, _rmi(step="            index += 2\n"), _META, 'breaks'),
+    # =====================================================================================================================================
+    # robustness round 6 (seeded/REFACTORINGS.md, DESIGN 11.20)
+    # -- definitions.remove_empty_*: the loop of `.remove()` calls spelled `self._objects -= empty_objects` (MutableSet.__isub__ on Unique:
+    #    unit stdlib.MutableSet.__isub__ verifies the mixin text, contracts/definitions._unique_isub is its contract at the call, the
+    #    post needs lemma.discard_fold_present)
+    (DF, _REO_OLD, "        self._objects -= empty_objects\n", _REO, 'equivalent'),
+    (DF, _REP_OLD, "        self._properties -= empty_properties\n", _REP, 'equivalent'),
+    (DF, _REO_OLD, "        for o in empty_objects:\n            self._objects.discard(o)\n", _REO, 'equivalent'),
+    (DF, _REO_OLD, "        self._objects |= empty_objects\n", _REO, 'breaks'),
+    (DF, _REO_OLD, "        self._properties -= empty_objects\n", _REO, 'breaks'),
+    (DF, _REO_OLD, "        self._objects -= nonempty_objects\n", _REO, 'breaks'),
+    (DF, _REO_OLD, "        self._objects -= empty_objects[1:]\n", _REO, 'breaks'),
+    (DF, _REO_OLD, "        self._objects -= self._objects\n", _REO, 'breaks'),
+    (DF, _REO_OLD, "        self._objects &= empty_objects\n", _REO, 'breaks'),
+    (DF, _REO_OLD, "        pass\n", _REO, 'breaks'),
+    (DF, _REP_OLD, "        self._properties -= self._objects\n", _REP, 'breaks'),
+    (DF, _REP_OLD + "        return empty_properties", "        self._properties -= empty_properties\n        return self._properties", _REP, 'breaks'),
+    (_CABC, _ISUB_OLD, _ISUB_OLD.replace("self.discard(value)", "self.add(value)"), _ISUB, 'breaks'),
+    (_CABC, _ISUB_OLD, _ISUB_OLD.replace("self.discard(value)", "self.remove(value)"), _ISUB, 'breaks'),      # KeyError for an absent item
+    (_CABC, _ISUB_OLD, _ISUB_OLD.replace("self.discard(value)", "it.discard(value)"), _ISUB, 'breaks'),
+    (_CABC, _ISUB_OLD, _ISUB_OLD.replace("self.discard(value)", "self.discard(value)\n                break"), _ISUB, 'breaks'),
+    (_CABC, _ISUB_OLD, _ISUB_OLD.replace("        return self\n", "        return it\n"), _ISUB, 'breaks'),
+    (_CABC, _ISUB_OLD, _ISUB_OLD.replace("if it is self:", "if it is not self:"), _ISUB, 'breaks'),
+    (_CABC, _ISUB_OLD, "    def __isub__(self, it):\n        for value in it:\n            self.discard(value)\n        return self\n", _ISUB, 'equivalent'),
+    # -- formats.csv Csv.loadf: the probe `try: list(map(values.__getitem__, first_symbols)) except KeyError: pass else: break` spelled with
+    #    `in` on the symbol table (contracts/formats_csv.Table.contains = the condition under which the lookup does not raise) under all() /
+    #    any() (contracts/lib: the quantifier ranges over the positions of the ROW when the items come from a starred unpacking)
+    (FCSV, _CSVP_OLD, _csvp("if all(symbol in values for symbol in first_symbols):"), _CSVL, 'equivalent'),
+    (FCSV, _CSVP_OLD, _csvp("if not any(symbol not in values for symbol in first_symbols):"), _CSVL, 'equivalent'),
+    (FCSV, _CSVP_OLD, _csvp("if all(map(values.__contains__, first_symbols)):"), _CSVL, 'equivalent'),
+    (FCSV, _CSVP_OLD, _csvp("if any(symbol in values for symbol in first_symbols):"), _CSVL, 'breaks'),
+    (FCSV, _CSVP_OLD, _csvp("if all(symbol not in values for symbol in first_symbols):"), _CSVL, 'breaks'),
+    (FCSV, _CSVP_OLD, _csvp("if not all(symbol in values for symbol in first_symbols):"), _CSVL, 'breaks'),
+    (FCSV, _CSVP_OLD, _csvp("if all(symbol in values for symbol in first_row):"), _CSVL, 'breaks'),          # the object label is no symbol
+    (FCSV, _CSVP_OLD, _csvp("if all(symbol in cls.values[True] for symbol in first_symbols):"), _CSVL, 'breaks'),
+    (FCSV, _CSVP_OLD, _csvp("if all(symbol in values for symbol in first_symbols[1:]):"), _CSVL, 'breaks'),
+    (FCSV, _CSVP_OLD, _csvp("if all(symbol in values for symbol in properties):"), _CSVL, 'breaks'),
+    # -- lattices.Data._fromlist / __init__: the loop that numbers the concepts and sorts their neighbours moved into ONE helper method
+    #    `_link_neighbors` (R20-R1): the loop clause #0 of either unit governs the helper's loop (engine.Expansion: ordinals in the text
+    #    with the helpers executed in place at their call sites); `inst` is an instance made by object.__new__(cls)
+    (LT, _LNK_OLD, _lnk(), _LNK, 'equivalent'),
+    (LT, _LNK_OLD, _lnk(call_a="            concepts.sort(key=inst._shortlex)\n            _link_neighbors(inst, concepts, index_map)\n",
+                        call_b="        _link_neighbors(self, concepts, mapping)\n", where='module'), _LNK, 'equivalent'),
+    (LT, _LNK_OLD, _lnk(helper=_LNK_HELPER.replace("c.index = index", "c.index = index + 1")), _LNK, 'breaks'),
+    (LT, _LNK_OLD, _lnk(helper=_LNK_HELPER.replace("sorted(lower, key=longlex)", "sorted(lower, key=shortlex)")), _LNK, 'breaks'),
+    (LT, _LNK_OLD, _lnk(helper=_LNK_HELPER.replace("for u in c.upper_neighbors", "for u in c.lower_neighbors")), _LNK, 'breaks'),
+    (LT, _LNK_OLD, _lnk(helper=_LNK_HELPER.replace("        shortlex = self._shortlex\n        longlex = self._longlex\n",
+                                                  "        longlex = self._shortlex\n        shortlex = self._longlex\n")), _LNK, 'breaks'),
+    (LT, _LNK_OLD, _lnk(helper=_LNK_HELPER.replace("tuple(sorted(upper, key=shortlex))", "tuple(upper)")), _LNK, 'breaks'),
+    (LT, _LNK_OLD, _lnk(helper=_LNK_HELPER + "\n            break"), _LNK, 'breaks'),
+    (LT, _LNK_OLD, _lnk(call_a="            concepts.sort(key=inst._shortlex)\n"), ['lattices._fromlist.raw'], 'breaks'),
+    (LT, _LNK_OLD, _lnk(call_a="            inst._link_neighbors(concepts, index_map)\n            concepts.sort(key=inst._shortlex)\n"), ['lattices._fromlist.raw'], 'breaks'),
+    (LT, _LNK_OLD, _lnk(call_a="            concepts.sort(key=inst._shortlex)\n            inst._link_neighbors(concepts, dict(enumerate(concepts)))\n"),
+     ['lattices._fromlist.raw'], 'breaks'),
+    (LT, _LNK_OLD, _lnk(call_a="            concepts.sort(key=inst._longlex)\n            inst._link_neighbors(concepts, index_map)\n"), ['lattices._fromlist.raw'], 'breaks'),
+    (LT, _LNK_OLD, _lnk(call_b=""), ['lattices.__init__'], 'breaks'),
+    (LT, _LNK_OLD, _lnk(call_b="        self._link_neighbors(concepts, mapping)\n        self._link_neighbors(concepts, mapping)\n"), ['lattices.__init__'], 'breaks'),
+    (LT, _LNK_OLD, _lnk(call_b="        self._link_neighbors(mapping, concepts)\n"), ['lattices.__init__'], 'breaks'),
+    # -- lattices.Data._annotate: the two label passes as two calls of ONE nested function with getattr / setattr and lambdas (R17-R1):
+    #    the clauses #0..#3 are the loops of the first and of the second call
+    (LT, _ANN_OLD, _ann(), _ANN, 'equivalent'),
+    (LT, _ANN_OLD, _ann(first=_ANN_O.replace("context.objects", "context.properties")), _ANN, 'breaks'),
+    (LT, _ANN_OLD, _ann(second=_ANN_P.replace("'properties'", "'objects'")), _ANN, 'breaks'),
+    (LT, _ANN_OLD, _ann(second=_ANN_P.replace("context.extension([p], raw=True)", "context.extension(context.intension([p]), raw=True)")), _ANN, 'breaks'),
+    (LT, _ANN_OLD, _ann(second=""), _ANN, 'breaks'),
+    (LT, _ANN_OLD, _ann(helper=_ANN_HELPER.replace("if getattr(c, attname):", "if not getattr(c, attname):")), _ANN, 'breaks'),
+    (LT, _ANN_OLD, _ann(helper=_ANN_HELPER.replace("setattr(c, attname, [label])", "setattr(c, 'objects', [label])")), _ANN, 'breaks'),
+    (LT, _ANN_OLD, _ann(helper=_ANN_HELPER.replace("                    touched.add(c)\n", "")), _ANN, 'breaks'),
+    (LT, _ANN_OLD, _ann(helper=_ANN_HELPER.replace("setattr(c, attname, tuple(getattr(c, attname)))", "setattr(c, attname, getattr(c, attname))")), _ANN, 'breaks'),
+    (LT, _ANN_OLD, _ann(helper=_ANN_HELPER.replace("            for c in touched:\n                setattr(c, attname, tuple(getattr(c, attname)))\n", "")), _ANN, 'breaks'),
+    # -- matrices: the two zero-skipping loops of double / doubleprime in ONE sibling closure of _pair_with (R18-R1): the clauses #0, #1 of
+    #    either unit govern the loops of the sibling executed in place (its free variables are those of the enclosing scope)
+    (M, _DBL_OLD, _dbl(), _DBL, 'equivalent'),
+    (M, _DBL_OLD, _dbl(helper=_DBL_HELPER.replace("double &= self[i]", "double &= other[i]")), _DBL, 'breaks'),
+    (M, _DBL_OLD, _dbl(helper=_DBL_HELPER.replace("            bitset = prime\n", "")), _DBL, 'breaks'),
+    (M, _DBL_OLD, _dbl(helper=_DBL_HELPER.replace("return double, prime", "return prime, double")), _DBL, 'breaks'),
+    (M, _DBL_OLD, _dbl(helper=_DBL_HELPER.replace("prime = Prime", "prime = Double")), _DBL, 'breaks'),
+    (M, _DBL_OLD, _dbl(double="            return make_double(derive_twice(bitset)[1])\n"), ['matrices.double'], 'breaks'),
+    (M, _DBL_OLD, _dbl(double="            return make_prime(derive_twice(bitset)[0])\n"), ['matrices.double'], 'breaks'),
+    (M, _DBL_OLD, _dbl(doubleprime="            prime, double = derive_twice(bitset)\n            return make_double(double), make_prime(prime)\n"),
+     ['matrices.doubleprime'], 'breaks'),
+    (M, _DBL_OLD, _dbl(doubleprime="            double, prime = derive_twice(bitset)\n            return make_prime(prime), make_double(double)\n"),
+     ['matrices.doubleprime'], 'breaks'),
+    (M, _DBL_OLD, _dbl(doubleprime="            double, prime = derive_twice(bitset >> 1)\n            return make_double(double), make_prime(prime)\n"),
+     ['matrices.doubleprime'], 'breaks'),
+    # -- the ten hand-made refactorings of round 6 (seeded/refactorings/H20..H29): breaking edits in each NEW spelling
+    # H20 lattices._fromlist (ordered): `for index, c in enumerate(concepts)` as `for index in range(len(concepts)): c = concepts[index]`
+    (LT, _H20_OLD, _h20(), ['lattices._fromlist.ordered'], 'equivalent'),
+    (LT, _H20_OLD, _h20(fetch="concepts[index - 1]"), ['lattices._fromlist.ordered'], 'breaks'),
+    (LT, _H20_OLD, _h20(rng="range(len(concepts) - 1)"), ['lattices._fromlist.ordered'], 'breaks'),
+    (LT, _H20_OLD, _h20(rng="range(1, len(concepts))"), ['lattices._fromlist.ordered'], 'breaks'),
+    (LT, _H20_OLD, _h20(rng="range(len(concepts) + 1)"), ['lattices._fromlist.ordered'], 'breaks'),
+    # H21 _common.Concept.extent_index_set / intent_index_set: the conditional expression as an if statement / two returns
+    (CM, _H21_OLD, "        if as_set:\n            cls = frozenset\n        else:\n            cls = tuple\n        return cls(self.extent.iter_set())\n",
+     ['_common.Concept.extent_index_set'], 'equivalent'),
+    (CM, _H21_OLD, "        if as_set:\n            cls = tuple\n        else:\n            cls = frozenset\n        return cls(self.extent.iter_set())\n",
+     ['_common.Concept.extent_index_set'], 'breaks'),
+    (CM, _H21_OLD, "        if as_set:\n            return frozenset(self.extent.iter_set())\n        return tuple(self.intent.iter_set())\n",
+     ['_common.Concept.extent_index_set'], 'breaks'),
+    # H22 lattices._init: sorted(concepts, key=longlex) as a copied list sorted in place
+    (LT, _H22_OLD, _h22(), ['lattices._init'], 'equivalent'),
+    (LT, _H22_OLD, _h22(sort="        by_longlex.sort(key=inst._shortlex)\n"), ['lattices._init'], 'breaks'),
+    (LT, _H22_OLD, _h22(sort=""), ['lattices._init'], 'breaks'),
+    (LT, _H22_OLD, _h22(sort="        inst._concepts.sort(key=inst._longlex)\n"), ['lattices._init'], 'breaks'),
+    (LT, _H22_OLD, _h22(over="inst._concepts"), ['lattices._init'], 'breaks'),
+    (LT, _H22_OLD, _h22(copy="        by_longlex = list(inst.atoms)\n"), ['lattices._init'], 'breaks'),
+    # H23 definitions.add_object / remove_object: pairs.update(<generator>) / difference_update as |= / -= of a set comprehension
+    (DF, _H23A_OLD, "        self._pairs |= {(obj, p) for p in properties}\n", ['definitions.add_object'], 'equivalent'),
+    (DF, _H23A_OLD, "        self._pairs |= {(p, obj) for p in properties}\n", ['definitions.add_object'], 'breaks'),
+    (DF, _H23A_OLD, "        self._pairs -= {(obj, p) for p in properties}\n", ['definitions.add_object'], 'breaks'),
+    (DF, _H23A_OLD, "        self._pairs |= {(obj, p) for p in self._properties}\n", ['definitions.add_object'], 'breaks'),
+    (DF, _H23A_OLD, "        self._pairs |= {(obj, p) for p in properties if p != obj}\n", ['definitions.add_object'], 'breaks'),
+    (DF, _H23R_OLD, "        self._pairs -= {(obj, p) for p in self._properties}\n", ['definitions.remove_object'], 'equivalent'),
+    (DF, _H23R_OLD, "        self._pairs -= {(p, obj) for p in self._properties}\n", ['definitions.remove_object'], 'breaks'),
+    (DF, _H23R_OLD, "        self._pairs |= {(obj, p) for p in self._properties}\n", ['definitions.remove_object'], 'breaks'),
+    (DF, _H23R_OLD, "        self._pairs -= {(obj, p) for p in self._objects}\n", ['definitions.remove_object'], 'breaks'),
+    (DF, _H23R_OLD, "        self._pairs -= self._pairs\n", ['definitions.remove_object'], 'breaks'),
+    # H24 lattices.Data.__init__: Concept(self, *args) as explicit unpacking in the comprehension target
+    (LT, _H24_OLD, _h24(), ['lattices.__init__'], 'equivalent'),
+    (LT, _H24_OLD, _h24(args="self, intent, extent, upper, lower"), ['lattices.__init__'], 'breaks'),
+    (LT, _H24_OLD, _h24(args="self, extent, intent, lower, upper"), ['lattices.__init__'], 'breaks'),
+    (LT, _H24_OLD, _h24(target="extent, intent, lower, upper"), ['lattices.__init__'], 'breaks'),
+    # H25 python_literal.dump_file: `yield from lines` as `for line in lines: yield line` (extract: executed as the delegation it is)
+    (FPL, _H25_OLD, "        for line in lines:\n            yield line\n", _DUMPF, 'equivalent'),
+    (FPL, _H25_OLD, "        for line in lines:\n            yield line\n            yield line\n", _DUMPF, 'breaks'),
+    (FPL, _H25_OLD, "        for line in reversed(lines):\n            yield line\n", _DUMPF, 'breaks'),
+    (FPL, _H25_OLD, "        for line in lines:\n            yield key\n", _DUMPF, 'breaks'),
+    (FPL, _H25_OLD, "        for line in lines:\n            pass\n", _DUMPF, 'breaks'),
+    # H26 table.dump_file: write = functools.partial(print, file=file) as a nested def
+    (FTB, _H26_OLD, "    def write(line):\n        print(line, file=file)\n\n    write(tmpl", _TDF, 'equivalent'),
+    (FTB, _H26_OLD, "    def write(line):\n        print(line)\n\n    write(tmpl", _TDF, 'breaks'),
+    (FTB, _H26_OLD, "    def write(line):\n        print(line, file=file)\n        print(line, file=file)\n\n    write(tmpl", _TDF, 'breaks'),
+    (FTB, _H26_OLD, "    def write(line):\n        print(tmpl, file=file)\n\n    write(tmpl", _TDF, 'breaks'),
+    # H27 csv Csv.loadf: `for as_int, values in cls.values.items()` as a loop over the keys with a lookup
+    (FCSV, _H27_OLD, "            for as_int in cls.values:\n                values = cls.values[as_int]\n", _CSVL, 'equivalent'),
+    (FCSV, _H27_OLD, "            for as_int in cls.values:\n                values = cls.values[not as_int]\n", _CSVL, 'breaks'),
+    (FCSV, _H27_OLD, "            for as_int in reversed(list(cls.values)):\n                values = cls.values[as_int]\n", _CSVL, 'breaks'),
+    (FCSV, _H27_OLD, "            for as_int in cls.values:\n                values = cls.symbols[as_int]\n", _CSVL, 'breaks'),
+    # H28 lattices.supremum: the negative index spelled with len()
+    (LT, "        return self._concepts[-1]\n", "        return self._concepts[len(self._concepts) - 1]\n", ['lattices.supremum'], 'equivalent'),
+    (LT, "        return self._concepts[-1]\n", "        return self._concepts[len(self._concepts) - 2]\n", ['lattices.supremum'], 'breaks'),
+    (LT, "        return self._concepts[-1]\n", "        return self._concepts[len(self._concepts)]\n", ['lattices.supremum'], 'breaks'),
+    # H29 lattice_members.Pair._eq: getattr with the two literal names as direct attribute pairs (the clause reads the compared lists off
+    #     the iterable of the inner loop, not off a local name)
+    (LM, _H29_OLD, _h29(), ['members.Pair._eq'], 'equivalent'),
+    (LM, _H29_OLD, _h29(second="(self.lower_neighbors, other.lower_neighbors)", swap=True), ['members.Pair._eq'], 'equivalent'),
+    (LM, _H29_OLD, _h29(first="(self.upper_neighbors, other.lower_neighbors)"), ['members.Pair._eq'], 'breaks'),
+    (LM, _H29_OLD, _h29(second="(self.upper_neighbors, other.upper_neighbors)"), ['members.Pair._eq'], 'breaks'),
+    (LM, _H29_OLD, _h29(second="(self.lower_neighbors, self.lower_neighbors)"), ['members.Pair._eq'], 'breaks'),
+    (LM, _H29_OLD, _h29(first="(self.upper_neighbors, other.upper_neighbors)", second=None), ['members.Pair._eq'], 'breaks'),
 ]
 
 
@@ -1027,7 +1298,18 @@ def run(only_units=None, verbose=True, procs=None):
             print('%-10s lost=%-3d %s  %s: %r -> %r' % ('ok' if ok else 'WRONG', lost, expect, relpath, old[:40], new[:40]))
         if not ok:
             bad.append((expect, relpath, old, new))
-    return len(jobs), bad
+    n_scan = 0
+    if only_units is None:
+        # the C17 order-site scan has its own in-memory variants (pyvc/setscan.py: quiet / reported against the committed allowlist)
+        from . import setscan
+        n_scan, wrong = setscan.selftest(extract.REPO, verbose=False)
+        for w in wrong:
+            if verbose:
+                print('WRONG      order-site scan variant:', w)
+            bad.append(('order-site scan',) + tuple(w))
+        if verbose:
+            print('ok         %d order-site scan variants (python3 -m pyvc.setscan --selftest)' % (n_scan - len(wrong)))
+    return len(jobs) + n_scan, bad
 
 
 if __name__ == '__main__':
